@@ -188,6 +188,20 @@ async fn doc_form(rqctx: RequestContext<()>, body: TypedBody<FormData>) -> Resul
     entered(&rqctx, "doc_form");
     Ok(HttpResponseOk(body.into_inner()))
 }
+// URL-encoded body together with shared extractors (path and query)
+#[endpoint { method = PUT, path = "/form/{id}", content_type = "application/x-www-form-urlencoded" }]
+async fn doc_form_with_params(rqctx: RequestContext<()>, path: Path<IdPath>, q: Query<ListQuery>, body: TypedBody<FormData>) -> Result<HttpResponseOk<FormData>, HttpError> {
+    entered(&rqctx, "doc_form_with_params");
+    let _ = (path.into_inner().id, q.into_inner().limit);
+    Ok(HttpResponseOk(body.into_inner()))
+}
+// JSON body together with shared extractors
+#[endpoint { method = POST, path = "/things/{id}/jobs" }]
+async fn doc_job_for_thing(rqctx: RequestContext<()>, path: Path<IdPath>, q: Query<VerboseQuery>, body: TypedBody<Job>) -> Result<HttpResponseCreated<JobStatus>, HttpError> {
+    entered(&rqctx, "doc_job_for_thing");
+    let _ = (path.into_inner().id, q.into_inner().verbose, body.into_inner());
+    Ok(HttpResponseCreated(JobStatus { accepted: true, position: 1 }))
+}
 #[endpoint { method = PUT, path = "/raw" }]
 async fn doc_raw(rqctx: RequestContext<()>, body: UntypedBody) -> Result<HttpResponseOk<usize>, HttpError> {
     entered(&rqctx, "doc_raw");
@@ -310,6 +324,8 @@ fn main() {
         api.register(doc_with_headers).unwrap();
         api.register(doc_form).unwrap();
         api.register(doc_raw).unwrap();
+        api.register(doc_form_with_params).unwrap();
+        api.register(doc_job_for_thing).unwrap();
         api.register(doc_paged).unwrap();
         api.register(doc_fail).unwrap();
         api.register(doc_custom).unwrap();
